@@ -98,6 +98,26 @@ def shapelyRotate (cosf sinf : Rat → Rat) (vs : List Pt) (angle : Rat) (origin
 /-- `array_of_points + translation` (numpy broadcasting of a length-2 vector over an `(n, 2)` array) -/
 def addAll (vs : List Pt) (t : Pt) : List Pt := vs.map (fun p => Pt.add p t)
 
+/-- `isinstance(shape, ShapeGroup)` -/
+def isGroup : Shape → Bool
+  | .group _ => true
+  | _ => false
+
+/-- which object `_centered_extent` is asked about in the uncertain branch of `occupancy_shape_from_state` -/
+inductive ShapeTag where
+  | shape          -- the obstacle's shape
+  | rotatedRegion (by_ : Rat)  -- `state.position.rotate_translate_local([0, 0], by_)`: the position region turned about its own centre
+  deriving DecidableEq, Repr
+
+/-- `_centered_extent(x)`: `(lv, wv)` for the shape, `(ls, ws)` for the turned position region (parameters) -/
+def extentOf (x : ShapeTag) (lv wv ls ws : Rat) : Rat × Rat :=
+  match x with
+  | .shape => (lv, wv)
+  | .rotatedRegion _ => (ls, ws)
+
+/-- `np.abs` on a number -/
+def absR (x : Rat) : Rat := if x < 0 then -x else x
+
 /-! ### the scenario's obstacle dictionaries (scenario/scenario.py) -/
 
 /-- `list(d.values())` of an insertion-ordered dict `id -> obstacle`, kept as an association list -/
